@@ -22,7 +22,8 @@ import mm17_oracle as O
 CID = 'C17'
 BENCH = os.path.join(C.REPO, 'generation', 'mm-benchmarks')
 CORPUS = os.path.join(C.VERIF, 'harness', 'corpus', CID)
-MODEL_DEPS = ['MM17/Ast.vo', 'MM17/Print.vo', 'MM17/Parse.vo', 'MM17/Wf.vo', 'MM17/Slice.vo', 'MM17/SliceSpec.vo', 'MM17/Verify.vo']
+MODEL_DEPS = ['MM17/Ast.vo', 'MM17/Print.vo', 'MM17/Parse.vo', 'MM17/Wf.vo', 'MM17/Slice.vo', 'MM17/SliceSpec.vo', 'MM17/Verify.vo',
+              'MM17/VerifySpec.vo']
 
 
 def build_model():
@@ -516,8 +517,16 @@ def run(tier, seed):
                 vlines.append('AGREE ' + F.db_str(db) + ' ' + s['ast'] + ' ' + s['label'])
                 vexp.append((True, 'scope_agree'))
                 vid.append((cid, s['label'], 'slice-scope_agree'))
+                # how often the decidable side conditions of C17_slice_proof_verifies hold on the tested inputs
+                vlines.append('HYPS3 ' + F.db_str(db) + ' ' + s['label'])
+                vexp.append(None)
+                vid.append((cid, s['label'], 'hyps3'))
     vout = run_model(exe, vlines) if exe else []
     for (cid, lab, what), ans, exp in zip(vid, vout, vexp):
+        if what == 'hyps3':
+            R.hist['C17_slice_proof_verifies side conditions (sym_disjoint compressed): ' + ans] = \
+                R.hist.get('C17_slice_proof_verifies side conditions (sym_disjoint compressed): ' + ans, 0) + 1
+            continue
         R.case(('verify', cid, lab, what), True, f'verify:{what}:{"valid" if exp[0] else "invalid"}')
         if (ans == '1') != exp[0]:
             mismatches.append(('verify' if not what.startswith('slice-') else what, f'{cid}:{lab}:{what}',
